@@ -177,6 +177,14 @@ pub fn run_dedupe(op: DedupeOp, config: DedupeConfig, log: &dyn Log) -> Result<(
         }
     }
 
+    // Paths in the report are canonical, so the roots must be canonical as well,
+    // no matter if they were given with `--isolate` or taken from the earlier command.
+    dedupe_config.isolated_roots = dedupe_config
+        .isolated_roots
+        .iter()
+        .map(|p| p.canonicalize())
+        .collect();
+
     if dedupe_config.rf_over.is_none() {
         return Err(Error::from(
             "Could not extract --rf-over setting from the earlier fclones configuration. \
